@@ -24,6 +24,7 @@
 
 import datetime
 import time
+from collections.abc import Mapping
 from functools import cached_property
 from typing import Any
 from typing import Dict
@@ -83,6 +84,10 @@ class Row(tuple):
         Returns:
             A new Row instance.
         """
+        if not isinstance(data, (dict, tuple, list)) and isinstance(data, Mapping):
+            # a mapping that is not a dict (UserDict, ChainMap, MappingProxyType) is the dictionary it
+            # stands for; iterating it as a sequence would make a row of its keys
+            data = dict(data)
         if isinstance(data, dict):
             # data = tuple([data.get(field) for field in cls._fields])
             # previous comments on the below line suggested it had a bug, but didn't
